@@ -37,6 +37,7 @@ fn main() {
     let code = match id {
         "C03" => c03::run_check(replay),
         "C04" => c04::run_check(&args, replay),
+        "C05" => c05::run_check(replay),
         "C16" => c16::run(replay),
         "C17" => c17::run(replay),
         "C18" => c18::run_check(replay),
